@@ -1041,7 +1041,9 @@ M.contract(P_READ + ':_SingleFileReader.__call__',
                         _TestSuiteHierarchy__test_case_handling_setup=Any_,
                         _TestSuiteHierarchy__sub_test_suites=ListOf(Any_),
                         _TestSuiteHierarchy__test_cases=ListOf(Any_)),
-           old=lambda self: self._visited.copy(), modifies={},
+           # (the map of visited files is changed: declared, so that call sites forget what they knew about it and
+           # learn only what the clause says -- found by the object-field frame check)
+           old=lambda self: self._visited.copy(), modifies={'self._visited': MapOf(Int, Any_)},
            ensures={
                'suite files once visited stay visited': lambda self, old: keys_subset(old, self._visited),
            },
@@ -1055,7 +1057,8 @@ M.loop(P_READ + ':_SingleFileReader.__call__', 'map#1',
        invariant=lambda _i, out: len(out) == _i,
        modifies={'out': ListOf(Any_), 'element': 'local'})
 
-M.contract(P_READ + ':_SingleFileReader.apply', params=dict(self=READER_IN_PROGRESS), inline=True, modifies={},
+M.contract(P_READ + ':_SingleFileReader.apply', params=dict(self=READER_IN_PROGRESS), inline=True,
+           modifies={'self._visited': MapOf(Int, Any_)},
            old=lambda self: self._visited.copy(),
            ensures={'suite files once visited stay visited': lambda self, old: keys_subset(old, self._visited)},
            raises=dict(_READ_OUTCOMES), raises_only=())
